@@ -325,6 +325,11 @@ func (d *Describer) eval(v ssa.Value, s Sigma, blk *ssa.BasicBlock, pred int, de
 		}
 		return res
 	case *ssa.BinOp:
+		// idx <op> c where idx is an integer φ of this block (the result of a search: "-1 or the position of
+		// the hit"): decided on the value that arrives over the edge taken (rules_t6c02.go)
+		if t := d.evalOrdEdge(v, s, blk, pred); t != U {
+			return t
+		}
 		if (v.Op == token.EQL || v.Op == token.NEQ) && (isNilConst(v.X) || isNilConst(v.Y)) {
 			// x == nil where x is a φ of this block: the value that arrives over the edge taken
 			x := v.X
